@@ -220,13 +220,19 @@ namespace
     static_assert(output_buf_size <= std::numeric_limits<decltype(stream.avail_out)>::max());
 
     zerr = Z_OK;
-    while (zerr != Z_STREAM_END)
+    for (;;)
       {
 	errno = 0;
 	auto got = stream.avail_in = static_cast<avail_in_type>(fread(input_buffer, 1, input_buf_size, f));
 	if (ferror(f))
 	  {
 	    throw DFS::FileIOError(name, errno);
+	  }
+	if (zerr == Z_STREAM_END && got == 0)
+	  {
+	    // Physical end-of-file directly after the end of a gzip
+	    // member; we're done.
+	    break;
 	  }
 	// We rely on zlib to detect the end of the input stream.  If
 	// there is no more input here we will pass avail_in=0 to
@@ -240,6 +246,16 @@ namespace
 	stream.next_in = input_buffer;
 	do  // decompress some data from the input buffer.
 	  {
+	    if (zerr == Z_STREAM_END)
+	      {
+		// There is more input after the end of a member.  A
+		// gzip file can consist of several members (see RFC
+		// 1952); the uncompressed data is the concatenation
+		// of the contents of all of them, so carry on with
+		// the next one.  If what follows is not a gzip
+		// member, inflate() will reject it.
+		check_zlib_error_code(inflateReset(&stream));
+	      }
 	    stream.next_out = output_buffer;
 	    stream.avail_out = output_buf_size;
 	    zerr = inflate(&stream, Z_NO_FLUSH);
@@ -256,7 +272,9 @@ namespace
 	    if (zerr != Z_STREAM_END)
 	      check_zlib_error_code(zerr);
 	  }
-	while (stream.avail_out == 0);
+	while (zerr == Z_STREAM_END
+	       ? (stream.avail_in > 0) // another member follows
+	       : (stream.avail_out == 0));
       }
   }
 
